@@ -345,6 +345,15 @@ def rule_b_str(model, rep):
             ok = isinstance(it, ast.Call) and ast.unparse(it.func) == "range" and len(it.args) == 1 and norm.poly(it.args[0]) == count
         rep.check(ok, R, s, ast.unparse(gen or d), "choice-per-position idiom over the charset, `count` positions", witness=wit)
         return
+    if d.func.attr == "getrandbits":
+        uses_mod = any(isinstance(n, ast.BinOp) and isinstance(n.op, ast.Mod) for n in ast.walk(fn))
+        rep.check(not uses_mod, R, s, ast.unparse(d),
+                  "a getrandbits() draw is uniform on [0, 2**k); reducing it modulo len(charset) is biased unless the alphabet size is a power of two",
+                  witness="getrandstr(rng, 'abc', 1): P('a') = 1/2 instead of 1/3 -- generated passwords and 62-character salts are not uniform")
+        if uses_mod:
+            return
+        rep.undecided(R, s, "getrandbits draw without modulo reduction: idiom not recognised")
+        return
     if d.func.attr not in ("randrange", "randint"):
         rep.undecided(R, s, f"draw idiom {d.func.attr} not recognised")
         return
@@ -512,6 +521,28 @@ def rule_d(model, rep):
     ok = "self.rng.choice(self.words) for _ in range(self.length)" in txt
     rep.check(ok, R, site("passlib.pwd", "PhraseGenerator.__next__"), txt.split("\n", 1)[-1].strip()[:200],
               "phrase = `length` independent choices from self.words", witness=wit)
+    # validated-cache discipline of _ensure_unique: a source is remembered as valid only after the uniqueness test passed
+    eu = model.func("passlib.pwd", "_ensure_unique")
+    unit_pwd = model.unit("passlib.pwd")
+    adds = [n for n in ast.walk(eu) if isinstance(n, ast.Call) and ast.unparse(n.func) == "cache.add"]
+    if not adds:
+        rep.hold(R, site("passlib.pwd", "_ensure_unique"), "no validation cache")
+    for a in adds:
+        ok = False
+        node = a
+        while node is not eu and node is not None:
+            par = unit_pwd.parent(node)
+            if isinstance(par, ast.If) and node in par.body and "len(set(source)) == len(source)" in ast.unparse(par.test):
+                ok = True
+            node = par
+        rep.check(ok, R, site("passlib.pwd", "_ensure_unique"), ast.unparse(a), "a charset/wordset enters the 'already validated' cache only inside the branch where it was found duplicate-free",
+                  witness="genword(chars='aaaaaaab', entropy=32): refused on the first call, accepted on the retry -- passwords with ~6 bits instead of 32")
+    rep.check(any(isinstance(n, ast.Raise) and "ValueError" in ast.unparse(n) for n in ast.walk(eu)), R, site("passlib.pwd", "_ensure_unique"), "raise ValueError",
+              "duplicates are refused with ValueError")
+    for cls_, attr in (("WordGenerator", "chars"), ("PhraseGenerator", "words")):
+        init = model.func("passlib.pwd", cls_ + ".__init__")
+        rep.check(f"_ensure_unique({attr}, param='{attr}')" in ast.unparse(init), R, site("passlib.pwd", cls_ + ".__init__"), f"_ensure_unique({attr})",
+                  f"{cls_} validates its symbol set for duplicates (entropy per symbol assumes distinct symbols)", witness=wit)
     # totp.generate_secret: count = ceil(entropy * log(2, len(charset)))
     fn = model.func("passlib.totp", "generate_secret")
     s = site("passlib.totp", "generate_secret")
